@@ -103,6 +103,28 @@ theorem dropStale_frame (s : St) (hst : Nat) :
   · exact ⟨rfl, rfl, rfl, rfl, rfl⟩
 
 /-- The request `r` (in `reqs`, holding `c`) stops holding: `useCount c` may drop by one. -/
+theorem count_release' (s : St) (h : Inv s) (r : Nat) (c : Nat) (hr : s.rst r = .holding c) (v : RSt)
+    (hv : ∀ d, v ≠ .holding d) (c' : Nat) :
+    (holders (upd s.rst r v) c' s.reqs : Int) + (if c' = c then 1 else 0) ≤ (s.cl c').useCount := by
+  have hm : r ∈ s.reqs := (h.started r).mp (by rw [hr]; simp)
+  have e := holders_upd_mem s.rst c' s.reqs r v h.reqsNodup hm
+  have hv' : ¬ (v = RSt.holding c') := hv c'
+  simp only [hv', if_false] at e
+  have hc := h.count c'
+  rw [hr] at e
+  by_cases hcc : c' = c
+  · subst hcc
+    simp only [if_true] at e ⊢
+    omega
+  · have : ¬ (RSt.holding c = RSt.holding c') := fun x => hcc (by cases x; rfl)
+    simp only [this, if_false, hcc] at e ⊢
+    omega
+
+theorem holders_erase_le (rst : Nat → RSt) (c : Nat) (l : List Nat) (r : Nat) :
+    holders rst c (l.erase r) ≤ holders rst c l := by
+  unfold holders
+  exact List.Sublist.length_le (List.Sublist.filter _ List.erase_sublist)
+
 theorem count_release (s : St) (h : Inv s) (r : Nat) (c : Nat) (hr : s.rst r = .holding c) (c' : Nat) :
     (holders (upd s.rst r .over) c' s.reqs : Int) + (if c' = c then 1 else 0) ≤ (s.cl c').useCount := by
   have hm : r ∈ s.reqs := (h.started r).mp (by rw [hr]; simp)
@@ -254,7 +276,37 @@ theorem Inv_step (s : St) (op : Op) (h : Inv s) : Inv (step s op).1 := by
             · have : ¬ (RSt.holding s1.next = RSt.holding c') := fun x => hcc (by cases x; rfl)
               simp [this, hcc]
               exact h1.count c'
-  | dialDone c ok =>
+  | retryDial r =>
+    simp only [step]
+    split
+    · next c hr =>
+      split
+      · exact h
+      · have hm : r ∈ s.reqs := (h.started r).mp (by rw [hr]; simp)
+        refine { h with reqsNodup := h.reqsNodup.erase r, started := ?_, pairing := ?_, count := ?_ }
+        · intro r'
+          simp only [upd_apply]
+          split
+          · next e =>
+            subst e
+            simp only [ne_eq, not_true_eq_false, false_iff]
+            intro hmem
+            exact ((List.Nodup.mem_erase_iff h.reqsNodup).mp hmem).1 rfl
+          · next e =>
+            rw [h.started r']
+            constructor
+            · intro hx; exact (List.Nodup.mem_erase_iff h.reqsNodup).mpr ⟨e, hx⟩
+            · intro hx; exact List.mem_of_mem_erase hx
+        · intro r' c' hr'; simp only [upd_apply] at hr'; split at hr'
+          · cases hr'
+          · exact h.pairing r' c' hr'
+        · intro c'
+          have h1 := count_release' s h r c hr .fresh (by intro d; simp) c'
+          have h2 := holders_erase_le (upd s.rst r .fresh) c' s.reqs r
+          show (holders (upd s.rst r .fresh) c' (s.reqs.erase r) : Int) ≤ (s.cl c').useCount
+          split at h1 <;> omega
+    · exact h
+  | dialDone c res =>
     simp only [step]
     split
     · exact h
